@@ -423,7 +423,13 @@ class Run:
                 # trivial merge conditions mention no variable: the listed finding about conditions over shared children does
                 # not apply, so a wrong model set here gets a label of its own
                 op = "merge[conditions-true]"
-            f = self._equiv(i, on, op, out[1], newG)
+            # a composite input whose _unsat flag is set holds a concrete False (the flag is set by adding a concretely false constraint, or by a merge
+            # whose result is concretely False): the same situation as a FALSE in the expected constraint set
+            self._flagged = any(getattr(x, "_unsat", False) for x in [s, *(others if op.startswith(("merge", "combine")) else [])])
+            try:
+                f = self._equiv(i, on, op, out[1], newG)
+            finally:
+                self._flagged = False
             if f:
                 return [f]
         return []
@@ -469,7 +475,7 @@ class Run:
             if G:
                 self.nontrivial = True
             if self._ghost_mask(want) != m:
-                qual = "+false" if _mentions_false(G) else ""
+                qual = "+false" if (_mentions_false(G) or getattr(self, "_flagged", False)) else ""
                 return self._fail(i, on, f"{op}/model-set{qual}", [oracle.show_item(x) for x in _sorted_items(G)],
                                   [str(c) for c in result.constraints], detail="model sets differ (enumeration)")
             return None
@@ -489,7 +495,7 @@ class Run:
         if ok is None:
             raise Undecided("z3 unknown in equivalence check")
         if not ok:
-            qual = "+false" if _mentions_false(G) else ""
+            qual = "+false" if (_mentions_false(G) or getattr(self, "_flagged", False)) else ""
             return self._fail(i, on, f"{op}/model-set{qual}", [oracle.show_item(x) for x in _sorted_items(G)],
                               [str(c) for c in result.constraints], detail=f"distinguishing assignment {model}")
         return None
@@ -548,7 +554,11 @@ class Run:
                 _unsat = any(getattr(p, "_unsat", False) for p in pieces)
             Gv = frozenset(it for it in G if oracle.item_names(self.vars, it)) if not any(
                 it in ("FALSE",) for it in G) else G
-            f = self._equiv(i, on, "split", _All, Gv)
+            self._flagged = bool(getattr(s, "_unsat", False))
+            try:
+                f = self._equiv(i, on, "split", _All, Gv)
+            finally:
+                self._flagged = False
             if f:
                 fails.append(f)
         if rest and not fails:
